@@ -19,6 +19,9 @@ from .common import *
 PROP = 'C20'
 
 ASSUMPTIONS = [
+    'C20: authorized_keys option keywords are case-insensitive (sshd(8)); the keys of _key_options are lower-case '
+    '(proved on OptionsParser._add_option under C17), so key options / permissions are looked up by lower-cased name; '
+    'str.lower() is uninterpreted (lower_s)',
     'C20: the typed view ghost_permitopen is what get_key_option("permitopen") returns (a set of (host, port|None) '
     'pairs built by authorized_keys parsing); the options consulted are those captured at authentication (C05)',
     'C20: the application callbacks (connection_requested, server_requested, ...) and forward_local_port / '
@@ -96,9 +99,12 @@ def dict_truth_lemma(m, key):
 
 
 def key_permits(c, perm, st_old=True):
-    """sshd(8) AUTHORIZED_KEYS: a permission is granted unless the entry carries no-<permission>"""
+    """sshd(8) AUTHORIZED_KEYS: a permission is granted unless the entry carries no-<permission>.  Option keywords
+    are case-insensitive (sshd(8)): the table built by authorized_keys parsing holds them lower-cased (class
+    invariant of _key_options, proved on OptionsParser._add_option under C17), so the entry consulted is the
+    lower-cased name"""
     m = c.oldv('_key_options')
-    k = z3.Concat(z3.StringVal('no-'), perm)
+    k = lower_s(z3.Concat(z3.StringVal('no-'), perm))
     return z3.Not(z3.And(z3.Select(m.dom, k), truthy_any(z3.Select(m.val, k))))
 
 
@@ -128,7 +134,8 @@ get_key_option = Spec(
     PROP, 'connection', 'SSHServerConnection.get_key_option', self_class='SSHServerConnection',
     params=dict(option='str', default='any'), classes=SRV_CLASSES, modifies=[],
     ensures=[('value-or-default', lambda c: (lambda m, k: c.result == z3.If(
-        z3.Select(m.dom, k), z3.Select(m.val, k), c.arg('default')))(c.oldv('_key_options'), c.arg('option')))],
+        z3.Select(m.dom, k), z3.Select(m.val, k), c.arg('default')))(c.oldv('_key_options'),
+                                                                     lower_s(c.arg('option'))))],   # case-insensitive
     returns='any')
 
 get_certificate_option = Spec(
